@@ -18,7 +18,11 @@ from ..harness import Result, Violation, clip
 FUNCS = {
     "C05": ("call_mapper",), "C12": ("call_mapper",), "C14": ("call_mapper",), "C17": ("call_mapper",),
     "C08": ("call_predicate",), "C06": ("call_traversal_cb",),
+    "C02": ("DictWrapper",),
 }
+FUNCS["C05"] = FUNCS["C05"] + ("DictWrapper",)
+
+D_CL = "DictWrapper(d) refers to the dict d itself (identity), whatever d holds at that moment; wrappers of one dict are equal and hash alike, wrappers of different dicts are not; DictWrapper(**kw) wraps a new dict of kw"
 
 M_CL = "result == fn(node, data), or data itself when fn is None / returns None"
 P_CL = "result == fn(node), a returned control class instantiated, a raised control value returned as an equivalent value (StopIteration(v) as StopTraversal(v))"
@@ -232,6 +236,70 @@ def check_traversal(case: str) -> list:
 CHECKS = {"call_mapper": (_mapper_cases, check_mapper), "call_predicate": (_pred_cases, check_predicate), "call_traversal_cb": (_trav_cases, check_traversal)}
 
 
+def _dw_cases():
+    return ["empty dict", "dict filled later", "non-empty dict", "kwargs", "no arguments", "dict and kwargs", "empty dict and kwargs", "not a dict", "lookup through a second wrapper"]
+
+
+def check_dictwrapper(case: str) -> list:
+    from nutree.common import DictWrapper
+
+    out = []
+
+    def same(d, what):
+        w1, w2 = DictWrapper(d), DictWrapper(d)
+        if w1._dict is not d:
+            out.append((D_CL, f"{what}: the wrapper holds {w1._dict!r} (another object), not the dict it was given"))
+        if not (w1 == w2 and hash(w1) == hash(w2)):
+            out.append((D_CL, f"{what}: two wrappers of one dict are unequal or hash differently"))
+        other = DictWrapper(dict(d))
+        if w1 == other or hash(w1) == hash(other):
+            out.append((D_CL, f"{what}: a wrapper of an equal *copy* compares / hashes equal"))
+        return w1
+
+    if case == "empty dict":
+        same({}, "DictWrapper({})")
+    elif case == "dict filled later":
+        d: dict = {}
+        w = same(d, "DictWrapper(d) with d still empty")
+        d["name"] = "x"
+        if w._dict.get("name") != "x" or not (w == DictWrapper(d)):
+            out.append((D_CL, "a dict filled in after it was wrapped: the wrapper does not see the new entry / differs from a later wrapper of the same dict"))
+    elif case == "non-empty dict":
+        same({"name": "a", "n": 0}, "DictWrapper({...})")
+    elif case == "kwargs":
+        w = DictWrapper(name="a", n=0)
+        if w._dict != {"name": "a", "n": 0}:
+            out.append((D_CL, f"DictWrapper(name='a', n=0) wraps {w._dict!r}"))
+    elif case == "no arguments":
+        w1, w2 = DictWrapper(), DictWrapper()
+        if w1._dict != {} or w1._dict is w2._dict:
+            out.append((D_CL, "DictWrapper() must wrap a new empty dict each time"))
+    elif case in ("dict and kwargs", "empty dict and kwargs"):
+        try:
+            DictWrapper({} if case.startswith("empty") else {"a": 1}, b=2)
+            out.append((D_CL, f"{case}: accepted, required ValueError"))
+        except ValueError:
+            pass
+    elif case == "not a dict":
+        for bad in ([("a", 1)], "x", 0):
+            try:
+                DictWrapper(bad)
+                out.append((D_CL, f"DictWrapper({bad!r}) accepted, required TypeError"))
+            except TypeError:
+                pass
+    elif case == "lookup through a second wrapper":
+        for d0 in ({}, {"name": "r"}):
+            t = Tree("T")
+            n = t.add("A").add(DictWrapper(d0))
+            d0["later"] = 1
+            if t.find_first(DictWrapper(d0)) is not n or DictWrapper(d0) not in t or n.data_id != hash(DictWrapper(d0)):
+                out.append((D_CL, f"a record wrapped as {'an empty' if len(d0) == 1 else 'a non-empty'} dict is not found through a second wrapper of the same dict"))
+    return out
+
+
+CHECKS["DictWrapper"] = (_dw_cases, check_dictwrapper)
+
+
 def run_into(res: Result, prop: str):
     for f in FUNCS.get(prop, ()):
         cases, chk = CHECKS[f]
@@ -245,6 +313,9 @@ def run_into(res: Result, prop: str):
                 continue
             for clause, text in diffs:
                 res.violations.append(Violation(prop, clause, f"nutree.common.{f}", {"part": "cbunit", "func": f, "case": case, "clause": clause}, clip(text)))
+        if f == "DictWrapper":
+            res.bounds["nutree.common.DictWrapper"] = f"{len(names)} construction / identity cases (empty dict, dict filled after wrapping, non-empty dict, kwargs, no arguments, both, a non-dict; lookup of a node through a second wrapper of the same dict)"
+            continue
         res.bounds[f"nutree.common.{f}"] = f"{len(names)} callback behaviours (fn None; returned None / 13 values incl. 8 falsy ones / control classes and instances with their flags and values; raised control values, StopIteration, a user error)"
 
 
